@@ -82,6 +82,7 @@ class Outline:
     sha: str
     text: str
     src: str
+    expr: bool = False     # outline-expr: frm is the exact (whitespace-normalised) text of one expression
 
 
 @dataclass
@@ -293,6 +294,11 @@ class ContractSet:
             if m:
                 txt, j = self._take_block(sect, j, src)
                 fc.outlines.append(Outline(m.group(1), m.group(2), m.group(3) or '', txt, src))
+                cur_list = None; continue
+            m = re.match(r'^outline-expr\s+"((?:[^"\\]|\\.)*)"(?:\s+sha256\s+(\w+))?$', s)
+            if m:
+                txt, j = self._take_block(sect, j, src)
+                fc.outlines.append(Outline(m.group(1).replace('\\"', '"'), '', m.group(2) or '', txt.strip(), src, expr=True))
                 cur_list = None; continue
             lm = LABEL_RE.match(s)
             if lm and cur_list is not None:
